@@ -1,6 +1,10 @@
 package otap
 
 import (
+	"os"
+	"strconv"
+	"time"
+
 	"go.opentelemetry.io/collector/pdata/pcommon"
 	"go.opentelemetry.io/collector/pdata/plog"
 	"go.opentelemetry.io/collector/pdata/pmetric"
@@ -14,8 +18,10 @@ import (
 func Minimize(c *StreamCase, fails func(*StreamCase) bool, budget int) *StreamCase {
 	cur := cloneCase(c)
 	tries := 0
+	deadline := time.Now().Add(minimizeWall())
 	try := func(cand *StreamCase) bool {
-		if tries >= budget {
+		if tries >= budget || time.Now().After(deadline) {
+			tries = budget
 			return false
 		}
 		tries++
@@ -74,6 +80,15 @@ func Minimize(c *StreamCase, fails func(*StreamCase) bool, budget int) *StreamCa
 		}
 	}
 	return cur
+}
+
+// minimizeWall is the wall-clock budget of the minimizer (a tool-side time
+// limit, not part of any oracle).
+func minimizeWall() time.Duration {
+	if v, err := strconv.Atoi(os.Getenv("VERIF_MINIMIZE_SECONDS")); err == nil && v > 0 {
+		return time.Duration(v) * time.Second
+	}
+	return 10 * time.Minute
 }
 
 func cloneCase(c *StreamCase) *StreamCase {
